@@ -679,6 +679,7 @@ func TestCheck(t *testing.T) {
 		t.Fatal(err)
 	}
 	sysPart(t, env)
+	delegatePart(t, env)
 }
 
 func joinLines(xs []string) string {
